@@ -34,6 +34,8 @@ type Backend interface {
 	Snapshot(ledgerName string) Snap
 	// InjectFault arms one fault; the call counter restarts at 0.
 	InjectFault(f Fault)
+	// InjectFaults arms a plan of one-shot faults (each at its own call number).
+	InjectFaults(fs []Fault)
 	ClearFault()
 	// FaultFired reports whether the armed fault has been delivered.
 	FaultFired() bool
@@ -56,6 +58,9 @@ const (
 	FaultDeadlock = "deadlock" // the call fails with postgres.ErrDeadlockDetected
 	FaultCancel   = "cancel"   // the context is cancelled right before the call
 	FaultCommit   = "commit"   // the next top-level Commit fails (and rolls back)
+	// FaultIKConflict: the call fails with ErrIdempotencyKeyConflict although no log
+	// carries the key (exercises the controller's retry branch for that error)
+	FaultIKConflict = "ik-conflict"
 )
 
 // Fault: fail the At-th store call (1-based, counted over every method of the
@@ -95,11 +100,12 @@ type ledgerState struct {
 
 // Mem is the in-memory backend.
 type Mem struct {
-	ledgers map[string]*ledgerState
-	now     libtime.Time
-	fault   *Fault
-	calls   int
-	fired   bool
+	ledgers     map[string]*ledgerState
+	now         libtime.Time
+	faults      []Fault // the plan; faultsFired[i] marks delivered ones
+	faultsFired []bool
+	calls       int
+	fired       bool
 	// commit fault: armed / delivered
 	commitArmed bool
 	commitFired bool
@@ -133,16 +139,52 @@ func (m *Mem) NewStore(l ledger.Ledger) ledgercontroller.Store {
 	m.registerLedger(l)
 	return &Store{m: m, ls: m.state(l.Name), l: l, name: "root"}
 }
-func (m *Mem) InjectFault(f Fault) {
+func (m *Mem) InjectFault(f Fault) { m.InjectFaults([]Fault{f}) }
+
+func (m *Mem) InjectFaults(fs []Fault) {
 	m.calls, m.fired, m.commitFired = 0, false, false
-	m.commitArmed = f.Kind == FaultCommit || f.AndCommit
-	if f.Kind == FaultCommit {
-		m.fault = nil
-	} else {
-		m.fault = &f
+	m.commitArmed = false
+	m.faults = nil
+	for _, f := range fs {
+		if f.Kind == FaultCommit || f.AndCommit {
+			m.commitArmed = true
+		}
+		if f.Kind != FaultCommit {
+			m.faults = append(m.faults, f)
+		}
+	}
+	m.faultsFired = make([]bool, len(m.faults))
+}
+
+// nextFault: the planned fault for the current call number, if any (one-shot).
+func (m *Mem) nextFault() *Fault {
+	for i := range m.faults {
+		if !m.faultsFired[i] && m.faults[i].At == m.calls {
+			m.faultsFired[i] = true
+			m.fired = true
+			return &m.faults[i]
+		}
+	}
+	return nil
+}
+
+func faultErr(kind string) error {
+	switch kind {
+	case FaultDeadlock:
+		return postgres.ErrDeadlockDetected
+	case FaultCancel:
+		return context.Canceled
+	case FaultIKConflict:
+		return ledgerstore.NewErrIdempotencyKeyConflict("injected")
+	case FaultCommit:
+		return ErrCommitFailed
+	default:
+		return ErrInjected
 	}
 }
-func (m *Mem) ClearFault()             { m.fault = nil; m.calls = 0; m.commitArmed = false }
+func (m *Mem) ClearFault() {
+	m.faults, m.faultsFired, m.calls, m.commitArmed = nil, nil, 0, false
+}
 func (m *Mem) FaultFired() bool        { return m.fired || m.commitFired }
 func (m *Mem) Trace() []Call           { return append([]Call(nil), m.trace...) }
 func (m *Mem) ResetTrace()             { m.trace = nil }
@@ -237,19 +279,11 @@ func (s *Store) enter(ctx context.Context, method, args string) (idx int, err er
 	m.trace = append(m.trace, Call{N: len(m.trace) + 1, H: s.name, M: method, A: args})
 	idx = len(m.trace) - 1
 	m.calls++
-	if m.fault != nil && !m.fired && m.calls == m.fault.At {
-		m.fired = true
-		switch m.fault.Kind {
-		case FaultDeadlock:
-			err = postgres.ErrDeadlockDetected
-		case FaultCancel:
-			if m.cancel != nil {
-				m.cancel()
-			}
-			err = context.Canceled
-		default:
-			err = ErrInjected
+	if f := m.nextFault(); f != nil {
+		if f.Kind == FaultCancel && m.cancel != nil {
+			m.cancel()
 		}
+		err = faultErr(f.Kind)
 	}
 	if err == nil && ctx != nil && ctx.Err() != nil {
 		err = ctx.Err()
@@ -376,13 +410,13 @@ func (s *Store) Commit(ctx context.Context) error {
 		s.closeSQL(false)
 		return set(sql.ErrTxDone)
 	}
-	callFault := m.fault != nil && !m.fired && m.calls == m.fault.At
+	planned := m.nextFault()
+	callFault := planned != nil
 	commitFault := !callFault && m.commitArmed && !m.commitFired && s.depth == 0
 	if callFault || commitFault {
 		kind := FaultCommit
 		if callFault {
-			m.fired = true
-			kind = m.fault.Kind
+			kind = planned.Kind
 		} else {
 			m.commitFired = true
 		}
@@ -393,19 +427,10 @@ func (s *Store) Commit(ctx context.Context) error {
 		} else {
 			s.phys.aborted, s.phys.abortedDepth = true, s.depth-1
 		}
-		switch kind {
-		case FaultDeadlock:
-			return set(postgres.ErrDeadlockDetected)
-		case FaultCancel:
-			if m.cancel != nil {
-				m.cancel()
-			}
-			return set(context.Canceled)
-		case FaultCommit:
-			return set(ErrCommitFailed)
-		default:
-			return set(ErrInjected)
+		if kind == FaultCancel && m.cancel != nil {
+			m.cancel()
 		}
+		return set(faultErr(kind))
 	}
 	s.done = true
 	if s.phys.aborted {
@@ -446,20 +471,12 @@ func (s *Store) Rollback(ctx context.Context) error {
 		s.phys.aborted = false // ROLLBACK TO SAVEPOINT
 	}
 	s.closeSQL(false)
-	if m.fault != nil && !m.fired && m.calls == m.fault.At {
+	if f := m.nextFault(); f != nil {
 		// a failing ROLLBACK cannot make anything durable: the work is discarded anyway
-		m.fired = true
-		switch m.fault.Kind {
-		case FaultDeadlock:
-			return set(postgres.ErrDeadlockDetected)
-		case FaultCancel:
-			if m.cancel != nil {
-				m.cancel()
-			}
-			return set(context.Canceled)
-		default:
-			return set(ErrInjected)
+		if f.Kind == FaultCancel && m.cancel != nil {
+			m.cancel()
 		}
+		return set(faultErr(f.Kind))
 	}
 	return nil
 }
